@@ -1005,10 +1005,14 @@ func ParsePortionSpecific(input string) (*big.Rat, InterpreterError) {
 		if len(fractionMatch) != 0 {
 			numerator := fractionMatch[1]
 			denominator := fractionMatch[2]
-			res, ok = new(big.Rat).SetString(numerator + "/" + denominator)
-			if !ok {
+			// numerator and denominator are always decimal numbers
+			// (whereas big.Rat.SetString would read "010" as an octal number)
+			num, numOk := new(big.Int).SetString(numerator, 10)
+			den, denOk := new(big.Int).SetString(denominator, 10)
+			if !numOk || !denOk || den.Sign() == 0 {
 				return nil, BadPortionParsingErr{Reason: "invalid fractional format", Source: input}
 			}
+			res = new(big.Rat).SetFrac(num, den)
 		}
 	}
 	if res == nil {
